@@ -8,6 +8,7 @@ mod input;
 mod ports;
 mod files;
 mod screen;
+mod border;
 
 fn main() {
     let mut it = std::env::args().skip(1);
@@ -24,6 +25,7 @@ fn main() {
         "input" => input::run(&args),
         "ports" => ports::run(&args),
         "screen" => screen::run(&args),
+        "border" => border::run(&args),
         "portsdbg" => ports::debug(),
         _ => {
             eprintln!("unknown sub-command {cmd:?}");
